@@ -665,6 +665,36 @@ impl Rig {
                 // a write error is not final: the proxy may have answered (e.g. 413) and closed while we were sending
                 recv_one(&conn, &id, &mut g, send_err);
             }
+            "send_partial" => {
+                // an upload that the client abandons in the middle of a chunk (write side shut down)
+                let conn = st["conn"].as_str().unwrap().to_string();
+                let id = st["id"].as_str().unwrap_or("").to_string();
+                let c = self.conns.lock().unwrap().get(&conn).cloned();
+                if let Some(c) = c {
+                    let mut g = c.lock().unwrap();
+                    let method = st["method"].as_str().unwrap_or("PUT");
+                    let target = st["target"].as_str().unwrap_or("/");
+                    let mut head: Vec<u8> = latin1(&format!("{} {} HTTP/1.1\r\n", method, target));
+                    for (n, v) in pairs_of(st.get("headers")) {
+                        head.extend_from_slice(&latin1(&format!("{}: {}\r\n", n, v)));
+                    }
+                    head.extend_from_slice(format!("x-verif-id: {}\r\ntransfer-encoding: chunked\r\n\r\n", id).as_bytes());
+                    let body = body_of(&st["body"]);
+                    let cut = body.len() / 2;
+                    verif::trace::emit(json!({"e": "Request", "conn": conn, "id": id, "method": method, "target": target, "partial": true,
+                        "bodyLen": body.len(), "sent": cut}));
+                    let _ = g.stream.write_all(&head);
+                    // one complete chunk, then a chunk header announcing more than is sent
+                    let _ = g.stream.write_all(format!("{:x}\r\n", cut).as_bytes());
+                    let _ = g.stream.write_all(&body[..cut]);
+                    let _ = g.stream.write_all(b"\r\n");
+                    let _ = g.stream.write_all(format!("{:x}\r\n", body.len() - cut).as_bytes());
+                    let _ = g.stream.write_all(&body[cut..cut + (body.len() - cut) / 2]);
+                    let _ = g.stream.flush();
+                    let _ = g.stream.shutdown(std::net::Shutdown::Write);
+                    recv_one(&conn, &id, &mut g, None);
+                }
+            }
             "recv" => {
                 let conn = st["conn"].as_str().unwrap().to_string();
                 let id = st["id"].as_str().unwrap_or("").to_string();
